@@ -32,7 +32,7 @@ PROPS = {
                  "the end or after k accepted writes. Oracle from the per-connection accepted-write logs: exactly-once for nil returns, at-most-once "
                  "for errors, per-writer order across connections, transport id + reconnect flag of every dial, Read == delivered inbound in order, "
                  "pings filtered and answered by pongs, every pending/later Read/Write errors within 3 s after exhaustion or Close. Non-trivial = a "
-                 "redial with >= 2 writers, a failed dial attempt, or exhaustion; distinct by case hash. Added after the seeded campaign: connections whose Close reports an error; no redial after Close; clause order-of-issue (a message already being written before another Write was called is accepted first)."),
+                 "redial with >= 2 writers, a failed dial attempt, or exhaustion; distinct by case hash. Added after the seeded campaign: connections whose Close reports an error; no redial after Close; clause order-of-issue (a message already being written before another Write was called is accepted first). Round 3: connections whose Write is accepted at once and returns 0.2-3 ms later (reads fail and redials happen meanwhile); after the transport gave up by itself, further Reads return buffered messages and then errors, never block."),
         "assumptions": ["quiescence is only declared when the newest connection is settled (not broken, handshake done); reaching it later than 2 s is counted as timing_inconclusive, never reaching it within 22 s is judged", "an underlying Write that returns an error did not deliver the message", "a redialled connection delivers one handshake message first (consumed by the library)",
                         "a Read after Close may still return messages that were already buffered (finite), then must error"],
     },
@@ -79,7 +79,7 @@ PROPS = {
                  "included); every chunk announced to the send hook reached the broker with equal content; every accepted point is in an announced "
                  "chunk; resume requests carry the original stream id and chunks the alias of that connection; close totals; a stream reported "
                  "closed (closed event with error / stream-closed write error) carries no further obligation. Non-trivial = a cut with an "
-                 "unacknowledged chunk or withheld acks, a cut inside a resume exchange, or >= 2 failures that fired; distinct by case hash. Added after the seeded campaign: a neighbour upstream (unreliable or partial QoS) on the same connection with its own traffic, resumed side by side; idle cuts that fire only after the unacknowledged chunks have waited 1.3 s for their acks; clause C02.6 (a chunk received only on connections that died and never acknowledged is sent again after the resume); sub-check close-across-outage: 1-5 chunks, 0..n-1 of them acknowledged, Close started, link cut 0-20 ms later - Close returns nil with everything retransmitted and exact totals, or the stream is reported closed."),
+                 "unacknowledged chunk or withheld acks, a cut inside a resume exchange, or >= 2 failures that fired; distinct by case hash. Added after the seeded campaign: a neighbour upstream (unreliable or partial QoS) on the same connection with its own traffic, resumed side by side; idle cuts that fire only after the unacknowledged chunks have waited 1.3 s for their acks; clause C02.6 (a chunk received only on connections that died and never acknowledged is sent again after the resume); sub-check close-across-outage: 1-5 chunks, 0..n-1 of them acknowledged, Close started, link cut 0-20 ms later - Close returns nil with everything retransmitted and exact totals, or the stream is reported closed. Round 3: streams opened with an ack timeout (1 or 10 min, never expiring within a case); half-open cuts (client writes fail, reads keep blocking, the link dies for good 30 ms later); a final write+flush before Close and clause C02.8 (with the connection back a stream is resumed or reported closed - the write works or fails with the stream-closed error, it does not run into its deadline)."),
         "assumptions": ["AckTimeout 0 (an ack timeout legitimately drops a stored chunk)", "'eventually' = bounded: 6 s (+1 s per conflict) for quiescence",
                         "planned cuts are positioned by per-connection chunk ordinals; evidence records planned vs fired cuts"],
     },
@@ -90,7 +90,7 @@ PROPS = {
         "rule": ("generated: one downstream (QoS any, 0-3 pre-registered data ids, 1-3 source-node filters, ack flush 1-10 ms, both codecs) with a keeping-up consumer (optionally slowed); broker script of up to 60 items over 1-5 upstreams and 1-8 data ids: chunks whose upstream and data ids are sent in full or alias form depending on what the client has announced SO FAR (alias as soon as announced, still full after the announcement, full again before the alias was acknowledged), metadata of all 9 kinds from subscribed sources, pauses around the ack flush interval, and (labelled) chunks using an upstream / data-id alias the client never announced. Oracle: ReadDataPoints results == the broker's "
                  "sent list resolved through the client's own announcements (order, seq, upstream info, data ids, elapsed times, payloads), unknown "
                  "alias -> error and no delivery, ReadMetadata per source in order + exactly one DownstreamMetadataAck per item. Non-trivial = (>=2 "
-                 "upstreams or >=3 data ids) and at least one switch from full form to alias after the announcement; distinct by case hash. Added after the seeded campaign: a third of the cases run over a connection that also has a datagram transport (QoS reliable/partial there)."),
+                 "upstreams or >=3 data ids) and at least one switch from full form to alias after the announcement; distinct by case hash. Added after the seeded campaign: a third of the cases run over a connection that also has a datagram transport (QoS reliable/partial there). Round 3: polling consumers (every ReadDataPoints gets a context of 1/50/300 us, a context error means poll again)."),
         "assumptions": ["the consumer keeps up: at most 200 unread items, far below the documented 1024-item buffers",
                         "the broker only uses aliases it has received in a DownstreamChunkAck (or the open request)"],
     },
@@ -102,7 +102,7 @@ PROPS = {
                  "ledger: ack ids 1,2,3,...; results == chunks returned by ReadDataPoints exactly once with the right upstream stream id and seq; "
                  "alias<->upstream and alias<->data id are bijections (pre-registered ids included) and every full-form first sight is announced; "
                  "all acks precede the DownstreamCloseRequest. Non-trivial = the same upstream sent in full form again before its alias was "
-                 "acknowledged or after it was announced, or a Close with pending results; distinct by case hash. Added after the seeded campaign: 1, 2 or 4 goroutines read the downstream concurrently; a quarter of the cases over a datagram-capable connection."),
+                 "acknowledged or after it was announced, or a Close with pending results; distinct by case hash. Added after the seeded campaign: 1, 2 or 4 goroutines read the downstream concurrently; a quarter of the cases over a datagram-capable connection. Round 3: ack flush interval of 60 s with a Close deadline of 1.5 s (everything rides on the flush that Close triggers); the order on the wire (nothing after the close request) is judged also when Close fails."),
         "assumptions": ["the resume part of the quantifier (acks across a link failure) is exercised by C05/C07 scenarios; results buffered on a dead link are a recorded limitation there"],
     },
     "C05": {
@@ -121,7 +121,7 @@ PROPS = {
                  "streams work (probe write reaches the broker on the new connection / probe chunk is read): never silently detached; requests "
                  "around the failure succeed; one disconnected / reconnected event per lost / re-established connection and one resumed event per "
                  "successful resume. Non-trivial = calls around the failure, a failure during a redial handshake or a resume exchange, or >= 2 "
-                 "outages with >= 2 streams; distinct by case hash."),
+                 "outages with >= 2 streams; distinct by case hash. Round 3: redials that hand back a transport that is already dead (the first handshake write fails), at most 4 failing attempts per outage; after recovery every downstream is probed with a metadata item as well as a chunk."),
         "assumptions": ["a request that runs into its own deadline is a violation only if an established connection stayed up for more than 500 ms within the request's lifetime (scripted outages can outlast a 3 s deadline on a loaded machine); detachment is probed up to 8 times on the current-or-newer connection; event counts wait up to 3 s for late handlers", "scripted cuts happen after the client has read everything the broker sent (same cut position in both views)",
                         "a resume response sent less than 5 ms before the connection died may lose the race against the connection error: counts as a cut resume exchange",
                         "keepalive interval 20 ms, ping timeout 1.5 s (a severed link fails the next ping write at once, a slow pong under load must not fake an outage)",
@@ -154,7 +154,7 @@ PROPS = {
                  "(all cut chunks arrive with its own content under its own alias, close totals, reads complete and in order), every ack result and "
                  "every chunk delivered carries the receiving stream's own marker, sent storage empty per stream when all was acknowledged. "
                  "Non-trivial = a clear/remove on one stream while another holds entries, concurrent storage goroutines, victims next to >= 2 "
-                 "bystanders, or an outage with reliable + non-reliable upstreams; distinct by case hash. Added after the seeded campaign: victim dead-down-flood (a downstream whose close request is never answered, then 1300 chunks to its alias); the broker hands closed upstreams' stream aliases out again (reuse_aliases) and late bystander upstreams are opened behind a pilot stream that was acknowledged once and closed; victims configure their own ack interval/expiry; clauses ack-lost (every result the broker addressed to a stream reaches its hook) and configuration-leak (open request and Config of a stream opened with defaults)."),
+                 "bystanders, or an outage with reliable + non-reliable upstreams; distinct by case hash. Added after the seeded campaign: victim dead-down-flood (a downstream whose close request is never answered, then 1300 chunks to its alias); the broker hands closed upstreams' stream aliases out again (reuse_aliases) and late bystander upstreams are opened behind a pilot stream that was acknowledged once and closed; victims configure their own ack interval/expiry; clauses ack-lost (every result the broker addressed to a stream reaches its hook) and configuration-leak (open request and Config of a stream opened with defaults). Round 3: victim stray-metadata (metadata for a bystander alias from a source node nobody subscribed to, then an ordinary open/close of another downstream); bystanders on the library default flush policy that never call Flush (clause bystander-held: accepted points are transmitted within 100 ms + 2.5 s); clause streams-blocked."),
         "assumptions": ["a non-reliable upstream may lose what was in flight at a link failure; a reliable one may not", "the consumer keeps up (far below the 1024-item buffers)"],
     },
     "C08": {
@@ -171,7 +171,7 @@ PROPS = {
                  "codec) and, in thorough, pairs of faults. Oracle: every call returns within context+close timeout+keepalive+2 s (10 s = hang); "
                  "afterwards a cooperative broker's probe (open/write/flush/close upstream, open/read/close downstream, metadata, call) succeeds; "
                  "every mutex named in the lock-probe hook can be taken at quiescence. Non-trivial = a behaviour other than 'answer' that fired; "
-                 "distinct by case. Added after the seeded campaign: templates upstream-long-lived / up+down-long-lived (sleeps and State calls after delayed answers), upstream-close-background and flush-abandoned-then-use (Close with context.Background(); 50 explicit flushes whose contexts end after 0-168 us), conn-close-after-traffic; behaviours sever-outage (link cut and every redial refused until the program ended) and delay-late (answer 10 ms .. one context later than the caller's deadline); the enumeration runs a second configuration with a 30 ms ack timeout; the probe starts after every delayed answer has come in; runs with an unplanned reconnect are judged for blocked calls and leaked locks only."),
+                 "distinct by case. Added after the seeded campaign: templates upstream-long-lived / up+down-long-lived (sleeps and State calls after delayed answers), upstream-close-background and flush-abandoned-then-use (Close with context.Background(); 50 explicit flushes whose contexts end after 0-168 us), conn-close-after-traffic; behaviours sever-outage (link cut and every redial refused until the program ended) and delay-late (answer 10 ms .. one context later than the caller's deadline); the enumeration runs a second configuration with a 30 ms ack timeout; the probe starts after every delayed answer has come in; runs with an unplanned reconnect are judged for blocked calls and leaked locks only. Round 3: behaviour sever-slow-resume (after the cut, resume requests on the next connection are answered 150 ms late while the program goes on)."),
         "assumptions": ["Upstream.Close(context.Background()) is bounded by the close timeout only while it waits for acknowledgements; the wait for the close response is governed by the caller's context alone (library semantics relied on by the repository's own tests), so the background-close templates always answer the close request", "dropping the connect response is exempt (Connect has no bound to appeal to); disconnect during the handshake is covered",
                         "the lock probe sees the mutexes named in the verif hook (connection, wire connection tables, stream state), not every lock of the library",
                         "the path-complete static lock-release lemma of the statement is not claimed (DESIGN.md section 5)"],
@@ -217,7 +217,7 @@ PROPS = {
                  "Close returns; pending calls end; nothing but pings after the client's Disconnect and no new ConnectRequest for 10 keepalive "
                  "intervals; closed/disconnected notifications at most once per object/outage; goroutine census (runtime.Stack, library frames, "
                  "not present before the case) reaches zero within 3 s after the peer side is closed too. Non-trivial = something pending at close "
-                 "time (blocked call, open stream, reconnect in progress) or concurrent/repeated Close; distinct by case hash. Added after the seeded campaign: stalled peer (client writes block for 10/30 ms right before the close plan) with a flood of 0-40 end-to-end calls and stray call acks; clause connection-left-open (every transport the client dialled is closed by the client 10 ping intervals after Close returned)."),
+                 "time (blocked call, open stream, reconnect in progress) or concurrent/repeated Close; distinct by case hash. Added after the seeded campaign: stalled peer (client writes block for 10/30 ms right before the close plan) with a flood of 0-40 end-to-end calls and stray call acks; clause connection-left-open (every transport the client dialled is closed by the client 10 ping intervals after Close returned). Round 3: with a cut, every redial refused (broker unreachable): no dial attempt in the 450 ms after Close returned; connections that also have a datagram transport (its traffic is logged by the broker: nothing follows the Disconnect there either); back-pressure starts before the pending calls so that their writes are in flight at Close."),
         "assumptions": ["a call on a stream whose CONNECTION (not the stream) was closed may take up to 1 s to start failing (teardown follows asynchronously)",
                         "the return value of a repeated Close is not constrained", "a blocked Close is C08's business: such a case is counted as aborted here"],
     },
@@ -249,7 +249,7 @@ PROPS = {
                  "sizes, byte totals, the 65535-segment limit; (garbage) arbitrary datagrams: every length 0..32, random bytes, index beyond the "
                  "announced count, disagreeing counts - directly and through quic.New over an in-memory quic.Connection (process death is caught by "
                  "the driver); (public) permuted/lossy delivery through quic.New with compression on/off. Non-trivial = >=3 segments out of order, "
-                 "a loss, or an interleaving; distinct by case hash. Added after the seeded campaign: SendDatagram fails on the k-th datagram of a message (Write must fail, later messages unaffected); one default-configuration case with the last segment 1.3 s late (default expiry 10 s vs 1 s sweep)."),
+                 "a loss, or an interleaving; distinct by case hash. Added after the seeded campaign: SendDatagram fails on the k-th datagram of a message (Write must fail, later messages unaffected); one default-configuration case with the last segment 1.3 s late (default expiry 10 s vs 1 s sweep). Round 3: a partial message injected after the first sweep with expiry 10 ms whose last segment arrives 1.3 s later must have been forgotten (marker arrives instead); 2-16 concurrent unreliable writers of 2-5-segment messages over a loss-free in-order link: every message handed up is one that was sent, once, all arrive."),
         "assumptions": ["duplicate delivery of one segment is outside the stated quantifier (permutations and losses) and is not generated",
                         "a hostile datagram may poison its own sequence number; the statement only demands survival, so probe messages use other sequence numbers",
                         "the WebTransport transport shares the segment package and the receive-loop shape of the QUIC transport; the public path is driven through QUIC"],
@@ -268,7 +268,7 @@ PROPS = {
                  "concurrent request callers against a scripted peer that answers request ids with other message types, garbage, wrong ids, "
                  "duplicates or silence, plus unsolicited hostile frames; keepalive at 20 ms so pongs are confused too. thorough adds native "
                  "coverage-guided fuzzing of both decoders. Non-trivial = an input that decodes to a message (fixpoint exercised) or reaches the "
-                 "converter; distinct by codec+input. Added after the seeded campaign: (field-sweep) every varint/fixed field of a full valid protobuf encoding of every message type, nested ones included, set to each of 17 hostile numbers, every length-delimited field to 6 hostile payloads, re-serialised with correct lengths."),
+                 "converter; distinct by codec+input. Added after the seeded campaign: (field-sweep) every varint/fixed field of a full valid protobuf encoding of every message type, nested ones included, set to each of 17 hostile numbers, every length-delimited field to 6 hostile payloads, re-serialised with correct lengths. Round 3: size gate on padded frames (valid encoding + 1..100000 bytes of spaces/zeros/braces) and undecodable frames."),
         "assumptions": ["cross-codec fixpoint is only demanded when every string of the accepted message is valid UTF-8 (JSON cannot carry anything else)",
                         "a per-input watchdog of 20 s stands for 'hangs'; runtime fatals (stack exhaustion, OOM) kill the shard process and are reported by the driver as process-crash"],
     },
@@ -308,7 +308,7 @@ PROPS = {
                  "no close / redial with a live peer; one pong per broker ping with the same id. (announce, exhaustive grid) 9x9 configured "
                  "interval/timeout values {0, 999ms, 1s, 1.5s, 2.9s, 10s, 59.999s, 90min, 2^32-1 s} x {wire, iscp}: ConnectRequest carries the "
                  "configured values truncated to whole seconds (defaults when unset). Non-trivial = silence starting after >= 1 answered ping, or "
-                 "delayed pongs with traffic, or a grid cell; distinct by case hash. Added after the seeded campaign: live peer that stops reading for 20-100 ms and sends 3-30 pings at once (all answered in order when writes flow again)."),
+                 "delayed pongs with traffic, or a grid cell; distinct by case hash. Added after the seeded campaign: live peer that stops reading for 20-100 ms and sends 3-30 pings at once (all answered in order when writes flow again). Round 3: live peer with abandoned application requests (context 1/5/15 ms) answered 10-90 ms late; dead peer behind a transport whose Close takes 3 s (detection is announced when detected)."),
         "assumptions": ["live-peer cases use timeouts >= 200 ms with pong delays <= 50 % so that scheduling hiccups of the harness cannot fake a dead peer",
                         "time bounds use 2 s slack and the 3-run confirmation protocol; a miss that does not re-occur is counted as timing_inconclusive"],
     },
@@ -322,7 +322,7 @@ PROPS = {
                  "acks and unsolicited incoming calls; two receiver goroutines drain ReceiveCall / ReceiveReplyCall. Oracle: call ids distinct; "
                  "returned id == id the broker saw for that marker; success iff the ack for that id was positive; the awaited reply's RequestCallID "
                  "and payload belong to the caller's own call; inboxes equal the emitted lists in order, once each, field-equal. Non-trivial = >= 3 "
-                 "callers outstanding with permuted acks/replies; distinct by case hash. (volume) long sequential histories on one connection: 300-2100 call-and-wait calls with and without consumers draining the ReceiveCall/ReceiveReplyCall inboxes, after floods of 0-2100 incoming calls and stray replies, stray acks/replies every 1/7 calls; every call must get its own reply (bounded tables: 1024). Added after the seeded campaign: (close-mid-call) Conn.Close with 0-3 acknowledged-waiting, 0-3 unacknowledged call-and-wait callers and 0-2 SendCall callers outstanding, with and without deadlines: all return the connection-closed error within 2 s."),
+                 "callers outstanding with permuted acks/replies; distinct by case hash. (volume) long sequential histories on one connection: 300-2100 call-and-wait calls with and without consumers draining the ReceiveCall/ReceiveReplyCall inboxes, after floods of 0-2100 incoming calls and stray replies, stray acks/replies every 1/7 calls; every call must get its own reply (bounded tables: 1024). Added after the seeded campaign: (close-mid-call) Conn.Close with 0-3 acknowledged-waiting, 0-3 unacknowledged call-and-wait callers and 0-2 SendCall callers outstanding, with and without deadlines: all return the connection-closed error within 2 s. Round 3: inbox consumers that poll with contexts of 1/40/400 us; 1 or 3 callers that give up after 1 ms, their negative acks arriving while the patient callers wait."),
         "assumptions": ["inbox load stays far below the 1024-item buffers", "the reconnect-between-call-and-ack part of the quantifier is exercised by C05"],
     },
     "C17": {
